@@ -263,10 +263,10 @@ func verifWrapState(cr *checkRunner, check module.Check, state module.CheckState
 func (s *verifState) call(stage, arg string, cmd int, res module.CheckResult) module.CheckResult {
 	v := "none"
 	switch {
-	case res.Quarantine: // the order runAndMergeResults looks at the flags
-		v = "quar"
-	case res.Reject:
+	case res.Reject: // the order runAndMergeResults looks at the flags
 		v = "reject"
+	case res.Quarantine:
+		v = "quar"
 	case res.Reason != nil:
 		v = "ignore"
 	}
